@@ -338,8 +338,16 @@ class GeneratorProvider:
 
         generators: OrderedSet[_Generator] = OrderedSet()
         for generated_typ in self.get_all_types():
-            if (distance := self._type_system.subtype_distance(typ, generated_typ)) is not None:
-                generators.update(self._get_for_type(generated_typ, distance))
+            # Which generators are offered is decided by the same relation that
+            # RandomGeneratorProvider uses; the subtype distance only ranks them.
+            if not self._type_system.is_maybe_subtype(generated_typ, typ):
+                continue
+            distance = self._type_system.subtype_distance(typ, generated_typ)
+            if distance is None:
+                # Compatible through a rule the distance metric does not model
+                # (e.g. Any inside a tuple, None in a union): rank it like Any.
+                distance = config.configuration.generator_selection.generator_any_distance
+            generators.update(self._get_for_type(generated_typ, distance))
 
         return generators
 
